@@ -29,11 +29,11 @@ type shardWriter struct {
 
 // parseOnly parses "-x only=3,17" (replay of selected records of a deterministic generator run)
 func parseOnly(x string) map[int]bool {
-	if !strings.HasPrefix(x, "only=") {
+	if x == "" {
 		return nil
 	}
 	m := map[int]bool{}
-	for _, f := range strings.Split(x[5:], ",") {
+	for _, f := range strings.Split(x, ",") {
 		if n, err := strconv.Atoi(f); err == nil {
 			m[n] = true
 		}
